@@ -206,7 +206,9 @@ class ArmV6:
             # B<c> (T1) only: 0b1101111x are UDF and SVC, whose condition comes from the IT state
             return substring(self.opcode, 11, 8)
         if self.opcode_len == 32 and substring(self.opcode, 31, 27) == 0b11110 and \
-                substring(self.opcode, 15, 14) == 0b10 and not bit_at(self.opcode, 12):
+                substring(self.opcode, 15, 14) == 0b10 and not bit_at(self.opcode, 12) and \
+                substring(self.opcode, 25, 23) != 0b111:
+            # B<c>.W (T3) only: with bits 25:23 == 0b111 the word is MSR/MRS/hint/barrier/SMC/..., conditional through the IT state
             return substring(self.opcode, 25, 22)
         if substring(self.registers.cpsr.it, 3, 0) != 0b0000:
             return substring(self.registers.cpsr.it, 7, 4)
